@@ -405,3 +405,15 @@ def pmap(fn, items: list, nproc: int | None = None, chunk: int | None = None) ->
     for r in res:
         out.extend(r)
     return out
+
+
+def with_engine(o, name: str, fn):
+    """Run an additional engine `fn()` that reports into the Outcome `o`; every case it reports is
+    tagged with engine=<name> so that --replay can hand it back to that engine."""
+    v, c = o.violation, o.classify
+    o.violation = lambda case, why, **kw: v(dict(case, engine=name), why, **kw)
+    o.classify = lambda case, why, devs, **kw: c(dict(case, engine=name), why, devs, **kw)
+    try:
+        return fn()
+    finally:
+        o.violation, o.classify = v, c
